@@ -369,12 +369,25 @@ func TestC14Release(t *testing.T) {
 // it may stay reachable from the (still open) provider, and a scope that is
 // handed out with a nil error is one the caller can use.
 func TestC14CreateVsClose(t *testing.T) {
-	col := evid.New("C14", "creation-overlapping-close", "two-thread programs against a long-lived provider: thread A creates a child of a scope P (nil / Background / cancellable context, P at depth 1-2) and is parked at the n-th schedule point inside CreateScope or at a constructor entry/exit of an initializer; thread B closes P (or P's parent) to completion; A is released; all references are dropped; oracle: a creation that returns a nil error returns a scope that is not already closed (or was closed only after the creation returned), and after GC neither P, the child nor the instances created on the way are reachable although the provider is still open; goroutine count back at the baseline; non-trivial = A was parked")
+	col := evid.New("C14", "creation-overlapping-close", "two-thread programs against a long-lived provider: thread A creates a child of a scope P (nil / Background / cancellable context, P at depth 1-2) and is parked at the n-th schedule point inside CreateScope or at a constructor entry/exit of an initializer; thread B closes P (or P's parent) to completion - or, in a third of the programs, the scope under construction itself, through the Scope an initializer function was injected with and handed on (P may then be the provider); A is released; all references are dropped; oracle: a creation that returns a nil error returns a scope that is not already closed (or was closed only after the creation returned), and after GC neither P, the child nor the instances created on the way are reachable although the provider is still open; goroutine count back at the baseline; non-trivial = A was parked")
 	defer col.Flush()
 	rapid.Check(t, func(rt *rapid.T) {
 		o := kit.FullOpts()
 		o.Lifetimes = []int{kit.Singleton, kit.Scoped, kit.Scoped, kit.Transient}
 		cfg := kit.GenConfig(rt, o)
+		// in a third of the programs it is not an enclosing scope that is closed but the scope under
+		// construction itself: an initializer function has handed the Scope it was injected with to
+		// somebody else (a timeout, a supervisor), who closes it while CreateScope has not returned
+		newborn := rapid.IntRange(0, 2).Draw(rt, "closeNewborn") == 0
+		if newborn {
+			nid := 0
+			for _, r := range cfg.Regs {
+				if r.ID >= nid {
+					nid = r.ID + 1
+				}
+			}
+			cfg.Regs = append(cfg.Regs, kit.Reg{ID: nid, Life: kit.Scoped, Form: kit.FormVoid, Deps: []kit.DepSpec{{Builtin: 2}}})
+		}
 		w, err := kit.NewWorld(cfg)
 		if err != nil {
 			rt.Fatal(err)
@@ -383,6 +396,15 @@ func TestC14CreateVsClose(t *testing.T) {
 		var mu sync.Mutex
 		var instHandles []func() bool
 		collecting := false
+		var leaked godi.Scope // the Scope an initializer of the creation under test was given
+		var leakGoid atomic.Int64
+		w.OnBuiltin = func(v any) {
+			if s, ok := v.(godi.Scope); ok && newborn && leakGoid.Load() != 0 && kit.Goid() == leakGoid.Load() {
+				mu.Lock()
+				leaked = s
+				mu.Unlock()
+			}
+		}
 		w.OnMade = func(obj any) {
 			mu.Lock()
 			if collecting {
@@ -413,6 +435,9 @@ func TestC14CreateVsClose(t *testing.T) {
 		mu.Unlock()
 
 		depth := rapid.IntRange(1, 2).Draw(rt, "depth")
+		if newborn {
+			depth = rapid.IntRange(0, 2).Draw(rt, "newbornDepth") // 0: the scope is created on the provider itself
+		}
 		ctxKind := rapid.IntRange(0, 2).Draw(rt, "ctx")
 		closeTop := rapid.Bool().Draw(rt, "closeTop")
 		gateKind := rapid.SampledFrom([]int{kit.GateInternal, kit.GateInternal, kit.GateInternal, kit.GateCtorEnter, kit.GateCtorExit}).Draw(rt, "gate")
@@ -427,13 +452,18 @@ func TestC14CreateVsClose(t *testing.T) {
 				return
 			}
 			handles = append(handles, godi.VerifWeakScope(top))
-			parent := top
+			var parent godi.Provider = top
+			if depth == 0 {
+				parent = p
+			}
 			if depth == 2 {
-				if parent, err = top.CreateScope(nil); err != nil { //nolint
+				mid, err := top.CreateScope(nil) //nolint
+				if err != nil {
 					_ = top.Close()
 					return
 				}
-				handles = append(handles, godi.VerifWeakScope(parent))
+				parent = mid
+				handles = append(handles, godi.VerifWeakScope(mid))
 			}
 			var ctx context.Context
 			var cancel context.CancelFunc
@@ -451,8 +481,17 @@ func TestC14CreateVsClose(t *testing.T) {
 			var goid atomic.Int64
 			count := 0
 			pk := kit.NewParker(func(gp kit.GatePoint) bool {
-				if gp.Goid != goid.Load() || gp.Kind != gateKind || (gp.Kind == kit.GateInternal && !strings.HasPrefix(gp.Point, "scope.CreateScope.")) {
+				if gp.Goid != goid.Load() || gp.Kind != gateKind || (gp.Kind == kit.GateInternal && !strings.HasPrefix(gp.Point, "scope.CreateScope.") && !strings.HasPrefix(gp.Point, "provider.CreateScope.")) {
 					return false
+				}
+				if newborn {
+					// (only once an initializer has handed the scope on)
+					mu.Lock()
+					have := leaked != nil
+					mu.Unlock()
+					if !have {
+						return false
+					}
 				}
 				count++
 				return count == gateN
@@ -465,7 +504,9 @@ func TestC14CreateVsClose(t *testing.T) {
 			ch := make(chan res, 1)
 			go func() {
 				goid.Store(kit.Goid())
+				leakGoid.Store(kit.Goid())
 				s, err := parent.CreateScope(ctx)
+				leakGoid.Store(0)
 				ch <- res{s, err}
 			}()
 			var r res
@@ -476,9 +517,19 @@ func TestC14CreateVsClose(t *testing.T) {
 			case r = <-ch:
 				got = true
 			}
-			victim := parent
+			var victim godi.Provider = parent
 			if closeTop {
 				victim = top
+			}
+			if newborn {
+				mu.Lock()
+				if leaked != nil {
+					victim = leaked
+				} else if depth == 0 {
+					victim = top // (nothing was handed on, and the provider stays open in this test)
+				}
+				leaked = nil
+				mu.Unlock()
 			}
 			closed := make(chan struct{})
 			go func() { _ = victim.Close(); close(closed) }()
@@ -501,7 +552,9 @@ func TestC14CreateVsClose(t *testing.T) {
 				handles = append(handles, godi.VerifWeakScope(r.s))
 				// the Close had returned before the creation did: what the creation hands out with a nil
 				// error cannot be a scope that this Close has already closed
-				if parked && bDone {
+				// (when it is the new scope itself that somebody closed, a creation that completes normally
+				// is as good as one that reports the disposed error: the scope was closed by its user)
+				if parked && bDone && !newborn {
 					if _, gerr := r.s.Get(kit.ScopeType); gerr != nil {
 						f = fail("C14", "failed-creation-leaves-nothing", "closed-scope-returned", "CreateScope returned a nil error and a scope that is already closed (%v): the parent's Close had returned before", firstLine(gerr))
 					}
@@ -512,10 +565,11 @@ func TestC14CreateVsClose(t *testing.T) {
 		}()
 		mu.Lock()
 		collecting = false
+		leaked = nil // (the harness's own reference)
 		insts := append([]func() bool(nil), instHandles...)
 		mu.Unlock()
-		canon := fmt.Sprintf("%s || depth=%d ctx=%d closeTop=%v gate=%d#%d parked=%v at=%s", cfg, depth, ctxKind, closeTop, gateKind, gateN, parked, point)
-		labels := []string{fmt.Sprintf("parked=%v", parked)}
+		canon := fmt.Sprintf("%s || depth=%d ctx=%d closeTop=%v closeNewborn=%v gate=%d#%d parked=%v at=%s", cfg, depth, ctxKind, closeTop, newborn, gateKind, gateN, parked, point)
+		labels := []string{fmt.Sprintf("parked=%v", parked), fmt.Sprintf("close-newborn=%v", newborn && parked)}
 		if point != "" {
 			labels = append(labels, "at:"+point)
 		}
